@@ -28,7 +28,9 @@ ASSUMPTIONS = [
 ]
 
 NAMES = ["Alvarez", "Benedetti", "Cromwell", "Dunleavy", "Esposito", "Farnsworth", "Grimaldi", "Hollister", "Iverson",
-         "Jablonski", "Kowalczyk", "Lindqvist", "Montgomery", "Nakamura", "Oyelaran", "Pemberton"]
+         "Jablonski", "Kowalczyk", "Lindqvist", "Montgomery", "Nakamura", "Oyelaran", "Pemberton",
+         # names with inner punctuation: the antecedent pattern captures only part of them
+         "O'Brien", "D'Amato", "Fitz-Hugh", "MacDonald"]
 REPS = ["U.S.", "F.3d", "F.2d", "P.2d", "N.E.2d", "A.2d"]
 FILLERS = ["The court held otherwise", "We disagree", "That argument fails", "This is settled", "Nothing suggests otherwise"]
 
